@@ -507,6 +507,31 @@ theorem windows_disjoint (j k a b : Nat) (ha : a < 17) (hb : b < 17)
     (h : 17 * j + a = 17 * k + b) : j = k ∧ a = b := by
   omega
 
+/-- SHORT READS.  The entropy source is an `io.Reader`: one `Read` may deliver fewer octets than asked for, without
+    an error.  `newFromReader lims` is `New` on a source whose successive `Read` calls deliver at most `lims[0]`,
+    `lims[1]`, … octets (at least one each), read until the 17 are complete (`io.ReadFull`, which is what
+    `crypto/rand.Read` does with a replaced `Reader`).  However the source cuts its answers, the packet and the
+    unread rest are those of `newFrom`: every theorem of this section holds for every such source, and no octet of
+    the 17 is ever left at its zero value because a `Read` came back short.  (`17 ≤ lims.length`: `lims` describes
+    enough calls - at most 17 are made.)  The harness replays this with a source that delivers 1, 5, 16 or 17 octets
+    per `Read` (op `newstream` with a negative second argument). -/
+theorem new_reads_until_complete (lims : List Nat) (src : Bytes) (c : Int) (s : Bytes) (hl : 17 ≤ lims.length) :
+    newFromReader lims src c s = newFrom src c s := by
+  exact newFromReader_eq lims src c s hl
+
+/-- what `readFull` returns is the prefix of the source, whatever the limits; it fails exactly when the source holds
+    too little (given enough calls) -/
+theorem readFull_is_the_prefix (lims : List Nat) (need : Nat) (src got rest : Bytes)
+    (h : readFull lims need src = some (got, rest)) : got = src.take need ∧ rest = src.drop need := by
+  exact readFull_some lims need src got rest h
+
+/-- non-vacuity: a source that answers 5, 5, 5, 2 octets; one that delivers a single octet per call -/
+example : newFromReader [5, 5, 5, 5] ((List.range 20).map UInt8.ofNat) 1 [0x73] =
+    .ok (newPacket ((List.range 17).map UInt8.ofNat) 1 [0x73], [17, 18, 19]) := by decide
+example : (readFull (List.replicate 17 1) 17 ((List.range 17).map UInt8.ofNat)).isSome = true := by decide
+/-- a reader model that stopped after the first short answer (the mutant) would differ: only 5 octets read -/
+example : readFull [5] 17 ((List.range 20).map UInt8.ofNat) = none := by decide
+
 /-! ### Non-vacuity (tests, evaluated by the kernel with the repo's MD5 model `RV.MD5.md5`) -/
 section examples
 open RV.MD5 (md5)
